@@ -399,7 +399,7 @@ func (w *world) trView(v *tmconsensus.VersionedRoundView) string {
 		TB([]byte(s.MostVotedPrevoteHash)), TB([]byte(s.MostVotedPrecommitHash))})
 	return TL([]string{TN(v.Height), TN(uint64(v.Round)), TB(v.ValidatorSet.PubKeyHash), TB(v.ValidatorSet.VotePowerHash),
 		w.trKeys(v.ValidatorSet), trVPows(v.ValidatorSet),
-		phHashes(v.ProposedHeaders), w.trPmap(v.PrevoteProofs), w.trPmap(v.PrecommitProofs), sum, w.trCProof(v.PrevCommitProof), w.trConsistent(v.ValidatorSet)})
+		phHashes(v.ProposedHeaders), w.trPmap(v.PrevoteProofs), w.trPmap(v.PrecommitProofs), sum, w.trCProof(v.PrevCommitProof), w.trConsistent(v.ValidatorSet), TN(uint64(v.Version))})
 }
 
 // ---------- crash injection: store wrappers with a write budget ----------
@@ -499,6 +499,11 @@ func (s crashRoundStore) OverwriteRoundPrecommitProofs(ctx context.Context, h ui
 	return s.RoundStore.OverwriteRoundPrecommitProofs(ctx, h, r, p)
 }
 
+type hcChan struct {
+	h  uint64
+	ch chan struct{}
+}
+
 // ---------- one case ----------
 type hr struct {
 	h uint64
@@ -522,6 +527,18 @@ type runner struct {
 	crashes      bool
 	failed       bool
 	redo         func() // redelivery of the operation that was cut short by a crash
+
+	consumers  bool
+	entered    bool
+	lastEnterH uint64
+	lastEnterR uint32
+	entranceIn chan tmengine.VerifMRoundEntrance
+	smOut      chan tmengine.VerifMRoundView
+	gOut       chan tmelink.NetworkViewUpdate
+	hcChans    []hcChan // HeightCommitted channels handed to the kernel, still open
+
+	io               string   // what a consumer operation received (tr), consumed by the next observe()
+	committedSignals []uint64 // heights whose HeightCommitted channel was closed by the kernel
 
 	// harness's own belief about the chain, used only to generate mostly-valid inputs
 	valsAt   map[uint64]valset // validator set the harness intends for a height
@@ -586,7 +603,115 @@ func (rn *runner) observe() string {
 		}
 		rounds = append(rounds, TL([]string{TN(k.h), TN(uint64(k.r)), phHashes(phs), coll(pv), coll(pc)}))
 	}
-	return TL([]string{rn.w.trView(&v), rn.w.trView(&c), nhr, TL(hdrs), TL(rounds)})
+	keep := rn.hcChans[:0]
+	for _, hc := range rn.hcChans {
+		select {
+		case <-hc.ch:
+			rn.committedSignals = append(rn.committedSignals, hc.h)
+		default:
+			keep = append(keep, hc)
+		}
+	}
+	rn.hcChans = keep
+	io := rn.io
+	if io == "" {
+		io = TL(nil)
+	}
+	rn.io = ""
+	sig := make([]string, len(rn.committedSignals))
+	for i, h := range rn.committedSignals {
+		sig[i] = TN(h)
+	}
+	return TL([]string{rn.w.trView(&v), rn.w.trView(&c), nhr, TL(hdrs), TL(rounds), io, TL(sig)})
+}
+
+func (rn *runner) trVView(v *tmconsensus.VersionedRoundView) string {
+	return TL([]string{TN(uint64(v.Version)), rn.w.trView(v)})
+}
+
+func (rn *runner) trOView(v *tmconsensus.VersionedRoundView) string {
+	if v == nil {
+		return TL(nil)
+	}
+	return TL([]string{rn.trVView(v)})
+}
+
+func (rn *runner) barrier() {
+	var v tmconsensus.VersionedRoundView
+	_ = rn.m.VotingView(rn.w.ctx, &v)
+}
+
+// the state machine enters (h, r)
+func (rn *runner) doEnter(h uint64, r uint32) {
+	hc := make(chan struct{})
+	re := tmengine.VerifMRoundEntrance{
+		H: h, R: r,
+		Actions:         make(chan tmengine.VerifMRoundAction, 3),
+		HeightCommitted: hc,
+		Response:        make(chan tmengine.VerifMRoundEntranceResponse, 1),
+	}
+	select {
+	case rn.entranceIn <- re:
+	case <-time.After(3 * time.Second):
+		panic("kernel did not take the round entrance")
+	}
+	var resp tmengine.VerifMRoundEntranceResponse
+	select {
+	case resp = <-re.Response:
+	case <-time.After(3 * time.Second):
+		panic("kernel did not answer the round entrance")
+	}
+	rn.hcChans = append(rn.hcChans, hcChan{h, hc})
+	if resp.IsVRV() {
+		rn.io = TL([]string{TN(1), rn.trVView(&resp.VRV)})
+	} else {
+		rn.io = TL([]string{TN(2), TB(resp.CH.Header.Hash), rn.w.trCProof(resp.CH.Proof)})
+	}
+	rn.stats["sm_enter"]++
+	rn.barrier()
+	fmt.Fprintf(rn.out, "STEP (MEnter %d %d) @@ 0 @@ %s\n", h, r, rn.observe())
+}
+
+func (rn *runner) doSMRead() {
+	rn.barrier()
+	select {
+	case v := <-rn.smOut:
+		var vrv *tmconsensus.VersionedRoundView
+		if v.VRV.Height > 0 {
+			vrv = &v.VRV
+		}
+		rn.io = TL([]string{TN(3), rn.trOView(vrv), rn.trOView(v.JumpAheadRoundView)})
+		rn.stats["sm_read_value"]++
+	case <-time.After(40 * time.Millisecond):
+		rn.io = TL([]string{TN(5)})
+		rn.stats["sm_read_empty"]++
+	}
+	rn.barrier()
+	fmt.Fprintf(rn.out, "STEP MSMRead @@ 0 @@ %s\n", rn.observe())
+}
+
+func (rn *runner) doGRead() {
+	rn.barrier()
+	got := false
+	for tries := 0; tries < 4 && !got; tries++ {
+		select {
+		case u := <-rn.gOut:
+			if u.Committing == nil && u.Voting == nil && u.NextRound == nil && u.NilVotedRound == nil {
+				continue // round-session changes only: not modelled
+			}
+			rn.io = TL([]string{TN(4), rn.trOView(u.Committing), rn.trOView(u.Voting), rn.trOView(u.NextRound), rn.trOView(u.NilVotedRound)})
+			rn.stats["gossip_read_value"]++
+			got = true
+		case <-time.After(40 * time.Millisecond):
+			tries = 4
+		}
+	}
+	if !got {
+		rn.io = TL([]string{TN(5)})
+		rn.stats["gossip_read_empty"]++
+	}
+	rn.barrier()
+	fmt.Fprintf(rn.out, "STEP MGRead @@ 0 @@ %s\n", rn.observe())
 }
 
 func (rn *runner) valsFor(h uint64) valset {
@@ -675,11 +800,17 @@ func (rn *runner) startMirror() {
 	cfg := rn.cfg
 	cfg.Watchdog = wd
 	cfg.ProposedHeaderFetcher = tmelinktest.NewPHFetcher(256, 0).ProposedHeaderFetcher()
-	cfg.GossipStrategyOut = make(chan tmelink.NetworkViewUpdate)
+	rn.gOut = make(chan tmelink.NetworkViewUpdate)
+	rn.entranceIn = make(chan tmengine.VerifMRoundEntrance)
+	rn.smOut = make(chan tmengine.VerifMRoundView)
+	rn.hcChans = nil
+	rn.committedSignals = nil
+	rn.entered = false
+	cfg.GossipStrategyOut = rn.gOut
 	cfg.LagStateOut = make(chan tmelink.LagState)
 	cfg.ReplayedHeadersIn = make(chan tmelink.ReplayedHeaderRequest)
-	cfg.StateMachineRoundEntranceIn = make(chan tmengine.VerifMRoundEntrance)
-	cfg.StateMachineRoundViewOut = make(chan tmengine.VerifMRoundView)
+	cfg.StateMachineRoundEntranceIn = rn.entranceIn
+	cfg.StateMachineRoundViewOut = rn.smOut
 	m, err := tmengine.VerifNewInternalMirror(wctx, log, cfg)
 	if err != nil {
 		mcancel()
@@ -844,7 +975,7 @@ func (rn *runner) step() {
 	if rn.failed {
 		return
 	}
-	if rn.crashes {
+	if rn.crashes && rn.pendingCrash < 0 {
 		switch x := w.r.below(100); {
 		case x < 4: // clean restart
 			rn.stats["restart_clean"]++
@@ -859,6 +990,33 @@ func (rn *runner) step() {
 		}
 	}
 	v, c := rn.views()
+	if rn.consumers {
+		switch x := w.r.below(100); {
+		case x < 10: // the state machine enters a round the mirror can answer for; like a real state
+			// machine it only ever moves forward
+			eh, er := v.Height, v.Round
+			switch y := w.r.below(10); {
+			case y < 6:
+			case y < 7:
+				er = v.Round + 1
+			case y < 9 && c.Height > 0:
+				eh, er = c.Height, c.Round
+			case c.Height > rn.initH:
+				eh, er = c.Height-1, 0
+			}
+			if eh > rn.lastEnterH || (eh == rn.lastEnterH && er > rn.lastEnterR) || !rn.entered {
+				rn.entered, rn.lastEnterH, rn.lastEnterR = true, eh, er
+				rn.doEnter(eh, er)
+				return
+			}
+		case x < 24:
+			rn.doSMRead()
+			return
+		case x < 38:
+			rn.doGRead()
+			return
+		}
+	}
 	H, R := v.Height, v.Round
 	cur := rn.valsFor(H)
 	n := len(cur.keys)
@@ -1210,7 +1368,7 @@ func (rn *runner) proposal(v, c *tmconsensus.VersionedRoundView, H uint64, R uin
 	}
 }
 
-var crashMode bool
+var crashMode, consumerMode bool
 
 func runCase(idx int, seed uint64, nOps int, out io.Writer, stats map[string]int) {
 	ctx, cancel := context.WithCancel(context.Background())
@@ -1239,7 +1397,7 @@ func runCase(idx int, seed uint64, nOps int, out io.Writer, stats map[string]int
 
 		AssertEnv: gasserttest.DefaultEnv(),
 	}
-	rn := &runner{w: w, cfg: cfg, initH: initH, genesis: genesis, cancel: cancel, bud: bud, pendingCrash: -1, crashes: crashMode,
+	rn := &runner{w: w, cfg: cfg, initH: initH, genesis: genesis, cancel: cancel, bud: bud, pendingCrash: -1, crashes: crashMode, consumers: consumerMode,
 		touched: map[hr]bool{}, out: out, valsAt: map[uint64]valset{}, knownPHs: map[hr][]tmconsensus.ProposedHeader{}, stats: stats}
 	rn.startMirror()
 	internTab = map[string]string{}
@@ -1248,6 +1406,13 @@ func runCase(idx int, seed uint64, nOps int, out io.Writer, stats map[string]int
 	fmt.Fprintf(out, "CASE %d %d\nINIT %d %s\n", idx, seed, initH, genesis.coq())
 	for i := 0; i < nOps; i++ {
 		rn.step()
+	}
+	if !rn.failed && rn.consumers {
+		// quiescence: both consumers read until nothing is offered any more
+		for i := 0; i < 4; i++ {
+			rn.doGRead()
+			rn.doSMRead()
+		}
 	}
 	if !rn.failed {
 		v, _ := rn.views()
@@ -1270,6 +1435,7 @@ func main() {
 	cases := flag.Int("cases", 10, "number of cases")
 	ops := flag.Int("ops", 25, "operations per case")
 	flag.BoolVar(&crashMode, "crashes", false, "inject crashes (write budgets) and restarts")
+	flag.BoolVar(&consumerMode, "consumers", false, "act as state machine and gossip reader")
 	flag.Parse()
 	out := os.Stdout
 	stats := map[string]int{}
